@@ -30,7 +30,7 @@ def limit_values(rng):
 
 def C05(tier, rng):
     cs = []
-    for _ in range(sz(tier, 4000, 60000)):
+    for _ in range(sz(tier, 15000, 60000)):
         cs.append(enc_case(rand_msg(rng), 'valid'))
     for m in big_msgs(rng, tier) + limit_values(rng) + boundary_msgs(rng):
         cs.append(enc_case(m, 'big/limit'))
@@ -90,9 +90,9 @@ def C06(tier, rng):
         m = high_offset_msg(rng, off)
         if m: cs.append(enc_case(m, 'hioff'))
     # long random sequences
-    for _ in range(sz(tier, 60, 600)):
+    for _ in range(sz(tier, 60, 300)):
         pool = []
-        k = rng.choice([50, 200, 1000, 2000])
+        k = rng.choice([20, 50, 100, 200]) if tier == 'quick' else rng.choice([50, 200, 500, 1000])
         names = [rand_name(rng, pool, maxlabels=4) for _ in range(k)]
         cs.append(enc_case(names_msg(names, [rng.choice('qor') for _ in names]), 'long%d' % k))
     return cs
